@@ -227,3 +227,36 @@ def c05(d):
   if clause not in ("no_raise", "scale_pos", "form", "code_is_integer", "code_width", "scale_po2", "scale_po2_bounds", "scale_exp_integer", "max_to_top", "frozen", "scale_group"):
     return {"status": "unsupported", "detail": "clause %s has no native evaluation" % clause}
   return {"status": "refuted", "observed": {"tensors_tried": tried}}
+
+
+@replayer("c05_finite")
+def c05_finite(d):
+  """Bounded probe: finite inputs (zeros, an all-zero channel, magnitudes 1e-6 .. 1e6) give finite outputs and a finite
+  recorded scale, for bits 2..8, integer 0..3 of the configuration named in the witness."""
+  import tensorflow as tf
+  from qkeras import quantizers
+  w = d["witness"]
+  cls = getattr(quantizers, w["class"])
+  shape = tuple(w["shape"])
+  rng = np.random.default_rng(1)
+  tried = 0
+  for bits in (2, 3, 4, 8):
+    for integer in (0, 1, 3):
+      base = rng.standard_normal(shape).astype(np.float32)
+      tensors = [np.zeros(shape, np.float32), base * 1e-6, base * 1e6, base]
+      z = base.copy()
+      z[..., 0] = 0.0
+      tensors.append(z)
+      for t in tensors:
+        q = cls(bits, integer, 1, 1, **w["kwargs"])
+        out = np.array(q(tf.constant(t)))
+        tried += 1
+        sc = np.array(q.scale if w["class"] == "quantized_bits" else q.quantization_scale, dtype=np.float64)
+        if not np.all(np.isfinite(out)) or not np.all(np.isfinite(sc)):
+          bad = np.argwhere(~np.isfinite(out))
+          return {"status": "confirmed",
+                  "observed": {"bits": bits, "integer": integer, "kwargs": w["kwargs"], "shape": list(shape),
+                               "tensor": "zeros" if not t.any() else ("zero channel" if not t[..., 0].any() else "scaled normal"),
+                               "non_finite_outputs": int(bad.shape[0]), "scale_finite": bool(np.all(np.isfinite(sc)))},
+                  "expected": "finite outputs and scale for finite inputs"}
+  return {"status": "refuted", "observed": {"configurations_tried": tried}}
